@@ -339,6 +339,17 @@ def d3_deref(chk, F):
         idx = re.fullmatch(r"\(item as (\w+)Ref\.index as usize\)", full(arg_expr(f, t, 1)))
         if vec and idx:
             pairs.add((idx.group(1), vec.group(1)))
+    # ... or by delegating to the single-kind functions checked above: deref_<kind>(recipe, item.<Kind>Ref.index)
+    DELEG = {"deref_ingredient": "ingredients", "deref_cookware": "cookware", "deref_timer": "timers"}
+    via = {}
+    for b, t in f.calls():
+        ck = (callee_key(t) or "")
+        nm_ = ck.rsplit("::", 1)[-1]
+        if ck.startswith(B) and nm_ in DELEG and len(t.get("args", [])) == 2:
+            idx = re.fullmatch(r"item as (\w+)Ref\.index", full(arg_expr(f, t, 1)).strip("()"))
+            if idx and "recipe" in full(arg_expr(f, t, 0)):
+                pairs.add((idx.group(1), DELEG[nm_]))
+                via[ck] = DELEG[nm_]
     chk.expect(pairs == {("Ingredient", "ingredients"), ("Cookware", "cookware"), ("Timer", "timers")}, "C19.D3-deref", "deref_component", f"{f.file}:{f.line}",
                f"deref_component must resolve each reference kind in the same-kind vector; it pairs {sorted(pairs)}", sample=f"{sorted(pairs)}")
     # the component variant matches the kind
@@ -348,7 +359,8 @@ def d3_deref(chk, F):
         for core, _, _ in KINDS:
             if v == f"{core}Component":
                 vec = {"Ingredient": "ingredients", "Cookware": "cookware", "Timer": "timers"}[core]
-                chk.expect(f"(*recipe).{vec}" in t, "C19.D3-deref", f"deref_component|{v}", f"{ff.file}:{s.get('line')}", f"{v} is built from {t[:80]}", sample=f"{v} ← recipe.{vec}")
+                okv = f"(*recipe).{vec}" in t or any(k.split("::")[-1] + "(" in t and vv == vec for k, vv in via.items())
+                chk.expect(okv, "C19.D3-deref", f"deref_component|{v}", f"{ff.file}:{s.get('line')}", f"{v} is built from {t[:80]}", sample=f"{v} ← recipe.{vec}")
 
 
 def d4_merge(chk, F):
